@@ -1,7 +1,71 @@
 """C16: on-disk encodings match the PICO-8 cart formats, not merely each other."""
+import json
+import os
+import subprocess
+
 from pyvc.report import Check
-from pyvc import units, ground, specsanity
+from pyvc import units, ground, specsanity, source
 from contracts import p8text, p8png, sections
+from checks import c04
+
+VERIF = os.path.dirname(os.path.dirname(os.path.abspath(__file__)))
+
+# BOUNDED (never counted as proved): whole files.  (a) the carts PICO-8 itself saved both as .p8 and as .p8.png (tests/testdata) load,
+# through the real loaders, to identical data regions; (b) carts with distinct random regions written by the real .p8.png writer, read
+# by the reference PNG decoder + steganographic unpack, must show the PICO-8 memory map: gfx, map, gff, music, sfx, code, version.
+_NATIVE = r'''
+import json, os, random, shutil, sys, tempfile
+sys.path.insert(0, @VERIF@)
+from specs.pngref import png_decode, mem_from_pixels
+from pico8.game import file as pfile, game
+from pico8 import util
+util.set_verbosity(util.VERBOSITY_QUIET)
+bad, n = [], 0
+td = os.path.join(@REPO@, 'tests', 'testdata')
+for f in sorted(os.listdir(td)):
+    if f.endswith('.p8') and os.path.exists(os.path.join(td, f + '.png')):
+        n += 1
+        a, b = pfile.from_file(os.path.join(td, f)), pfile.from_file(os.path.join(td, f + '.png'))
+        for s in ('gfx', 'gff', 'map', 'sfx', 'music'):
+            if bytes(getattr(a, s)._data) != bytes(getattr(b, s)._data):
+                bad.append([f, 'region %s differs between the .p8 and the .p8.png PICO-8 saved' % s])
+rnd = random.Random(@SEED@)
+work = tempfile.mkdtemp(prefix='c16_')
+MAP = [('gfx', 0x0000, 0x2000), ('map', 0x2000, 0x3000), ('gff', 0x3000, 0x3100), ('music', 0x3100, 0x3200), ('sfx', 0x3200, 0x4300)]
+for k in range(@N@):
+    n += 1
+    g = game.Game.make_empty_game(filename='x.p8')
+    g.lua.update_from_lines([b'x=%d\n' % k])
+    for s, lo, hi in MAP:
+        d = getattr(g, s)._data
+        for i in range(len(d)): d[i] = rnd.randint(0, 255) if k else (MAP.index((s, lo, hi)) * 40 + i) & 255
+    g.version = rnd.choice([5, 8, 16, 41])
+    dest = os.path.join(work, 'c%d.p8.png' % k)
+    pfile.to_file(g, dest)
+    w, h, rows = png_decode(open(dest, 'rb').read())
+    mem = mem_from_pixels(w, h, rows)
+    if (w, h) != (160, 205): bad.append(['cart %d' % k, 'image is %dx%d' % (w, h)])
+    for s, lo, hi in MAP:
+        if bytes(mem[lo:hi]) != bytes(getattr(g, s)._data): bad.append(['cart %d' % k, 'memory 0x%04x-0x%04x of the written image is not the %s region' % (lo, hi, s)])
+    if mem[0x8000] != g.version: bad.append(['cart %d' % k, 'byte 0x8000 is %d, version %d' % (mem[0x8000], g.version)])
+    g2 = pfile.from_file(dest)
+    for s, lo, hi in MAP:
+        if bytes(getattr(g2, s)._data) != bytes(getattr(g, s)._data): bad.append(['cart %d' % k, 'region %s read back differently' % s])
+shutil.rmtree(work, ignore_errors=True)
+print(json.dumps({'n': n, 'bad': bad[:8]}))
+'''
+
+
+def native(seed, n):
+    env = {'PYTHONPATH': source.REPO, 'PATH': '/usr/bin:/bin', 'PYTHONDONTWRITEBYTECODE': '1', 'HOME': '/nonexistent'}
+    script = _NATIVE.replace('@VERIF@', repr(VERIF)).replace('@REPO@', repr(source.REPO)).replace('@SEED@', str(seed)).replace('@N@', str(n))
+    try:
+        r = subprocess.run([source.REAL_PY, '-c', script], capture_output=True, text=True, env=env, cwd='/', timeout=900)
+    except subprocess.TimeoutExpired:
+        return {'timeout': True}
+    if r.returncode != 0:
+        return {'error': r.stderr[-1500:]}
+    return json.loads(r.stdout)
 
 
 def run(tier, seed):
@@ -16,6 +80,26 @@ def run(tier, seed):
                             'pico8.sfx.sfx:Sfx.get_properties', 'pico8.sfx.sfx:Sfx.set_properties')]
     units.run_contracts(chk, cs, reg, tier, seed)
     units.replay_known(chk, reg)
+    # the memory map of the image: slicing in the reader, join in the writer (obligations shared with C04)
+    ground.account(chk, c04.layout_obligations(chk), 'LAYOUT')
+    nat = native(seed, 24 if tier == 'thorough' else 6)
+    if nat.get('timeout') or nat.get('error'):
+        chk.undecide('BOUNDED:c16/whole-file run did not finish: %s' % (nat.get('error') or 'timeout'))
+        nat = {}
+    chk.native_witness = nat.get('bad')
+    chk.bounded = {'rule': 'BOUNDED: the carts PICO-8 saved as both .p8 and .p8.png load to identical data regions through the real loaders; carts '
+                           'with distinct / random regions written by the real .p8.png writer and read by a reference PNG decoder + 2-bit unpack '
+                           'show gfx, map, gff, music, sfx at their PICO-8 addresses and the version at 0x8000, and read back unchanged',
+                   'evaluations': nat.get('n', 0), 'failures': len(nat.get('bad') or [])}
+    if nat.get('bad'):
+        for v in chk.violations:
+            if not v['confirmed']:
+                p = json.load(open(v['replay']))
+                p['native_witness'] = nat['bad'][:3]
+                json.dump(p, open(v['replay'], 'w'), indent=1, default=str)
+                v['confirmed'] = True
+        if not chk.violations and not chk.structural_fail:
+            chk.violation('BOUNDED:c16/whole files do not follow the PICO-8 memory map', {'witness': nat['bad'][:4]}, True)
     chk.trust('pyvc VC generator + z3; format specs /verif/specs/p8spec.py (written from the PICO-8 format '
               'description, validated on every run against the carts PICO-8 saved as both .p8 and .p8.png)')
     chk.trust('typed models of builtins (format(b,"02x"), int(s,16), bytes.fromhex, rstrip, str(b,"ascii")) -- '
@@ -25,6 +109,7 @@ def run(tier, seed):
                'bytes 00-7f, at most 64 sfx rows; rows of a wrong length are skipped by the code and are outside the format')
     chk.assume('cart images are 160x205 RGBA8 (the geometry of every PICO-8 cart); other geometries are not covered')
     chk.assume('ints="bv" exact under discharged no-wrap obligations (Sfx.from_lines: mathematical integers)')
-    chk.assume('not under contract here: Map.from_lines / Map.from_bytes (keyword plumbing around BaseSection), the '
-               'memory slicing inside get_raw_data_from_p8png_file and the join in P8PNGFormatter.to_file (see C04)')
+    chk.assume('not under contract here: Map.from_lines / Map.from_bytes (keyword plumbing around BaseSection); the memory slicing inside '
+               'get_raw_data_from_p8png_file and the join in P8PNGFormatter.to_file are LAYOUT obligations (read off the ast, compared with the '
+               'PICO-8 memory map) backed by the bounded whole-file run')
     return chk.finish()
